@@ -10,6 +10,8 @@ from hypothesis import strategies as st
 
 from vf import faults, gen
 from vf.core import Clause, Property, Violation
+from vf.league import TwinLeague, _twin_play
+from vf.stateful import machine_factory, replayer
 from vf.osk import KINDS, call_kwargs, classes, mk_model, mk_teams, rating_classes
 from vf.predgen import pred_cases, pred_labels
 from vf.props.c13 import run_fault
@@ -372,6 +374,27 @@ def check_btp_btf(case, ctx):
     ctx.nontrivial_if(len(set(cl)) == 1 or call.get("limit_sigma") is not None)
 
 
+class BTTwin(TwinLeague):
+    """Side A is a BradleyTerryFull league, side B a BradleyTerryPart league with the same parameters; every game has two teams."""
+    WHAT = "btp-vs-btf"
+    KINDS = ["BTF"]
+
+    def make_models(self, first):
+        return [mk_model(dict(self.cfg, kind="BTF")), mk_model(dict(self.cfg, kind="BTP"))]
+
+    def side_calls(self, step):
+        call = dict(step["frag"], **{k: v for k, v in step["opts"].items() if v is not None})
+        return [(self.models[0], call), (self.models[1], call)]
+
+    @classmethod
+    def extra_step(cls, draw, h, n, classes):
+        frag, _ = draw(gen.encodings(classes))
+        return {"frag": frag, "opts": draw(gen.call_options(h.cfg))}
+
+
+BTTwin.RULES = {"play_two": _twin_play(2, 2)}
+
+
 PROPERTY = Property(
     pid="C19",
     clauses=[
@@ -394,6 +417,11 @@ PROPERTY = Property(
                     "non-trivial = equal ordinals or equal values"),
         Clause(name="btp-equals-btf-on-two-teams", strategy=gen.games(kinds=["BTF"], max_teams=2), check=check_btp_btf, quick=3000, thorough=60000,
                rule="two-team games, all outcomes / options / gammas: BradleyTerryPart == BradleyTerryFull bit for bit; non-trivial = a tie or a per-call limit_sigma"),
+        Clause(name="btp-btf-twin-leagues", kind="stateful", machine=machine_factory(BTTwin), check=replayer(BTTwin),
+               quick=320, thorough=6000, steps_quick=25, steps_thorough=100,
+               rule="rule-based machine: a BradleyTerryFull league and a BradleyTerryPart league with equal parameters play the same two-team games "
+                    "(any outcome encoding, per-call options, rating objects fed back); all (mu, sigma) identical after every game; "
+                    "non-trivial = >= 6 games with some player in >= 3"),
     ],
     rule="differential across the five copies on value-equal inputs: predictions bit-identical; identical accept/reject verdicts over the whole C13 grammar; identical "
          "public surface (exhaustive); identical rating-object behaviour; BT-part == BT-full on two teams; distinct by SHA-1",
